@@ -257,7 +257,16 @@ fn gen_case_c07(sub: u64, thorough: bool) -> Case {
     let mut rng = Rng::new(sub);
     let tree = gen_tree(&mut rng.fork("tree"), TreeMode::Plain);
     let threads = if thorough && rng.chance(1, 5) { 5 + rng.below(4) } else { 2 + rng.below(3) };
-    let cfg = WalkCfg { threads, ..WalkCfg::default() };
+    let mut cfg = WalkCfg { threads, ..WalkCfg::default() };
+    let mut tree = tree;
+    if rng.chance(1, 6) {
+        // a further root on another file system, with same_file_system on: every
+        // root has its own device, so still nothing may be lost whoever steals what
+        tree.nodes.push(Node { path: "zx".into(), kind: NodeKind::XdevLink });
+        let at = rng.below(tree.roots.len() + 1);
+        tree.roots.insert(at, "zx".into());
+        cfg.same_file_system = true;
+    }
     let n_expected = tree.nodes.len() + tree.roots.len();
     let mut visitor = VisitorScript::default();
     match rng.below(10) {
@@ -948,6 +957,19 @@ fn main() {
     }
     if let Some(p) = &opts.replay {
         std::process::exit(replay_main(&opts, p));
+    }
+    // directories on the second device left behind by worker processes that were
+    // killed (hang detector) in an earlier run: remove those whose owner is gone
+    if let Ok(rd) = std::fs::read_dir("/var/tmp") {
+        for e in rd.flatten() {
+            let name = e.file_name().to_string_lossy().into_owned();
+            if let Some(rest) = name.strip_prefix("verif-xdev-") {
+                let pid = rest.split('-').next().unwrap_or("");
+                if !pid.is_empty() && !Path::new(&format!("/proc/{pid}")).exists() {
+                    let _ = std::fs::remove_dir_all(e.path());
+                }
+            }
+        }
     }
     let prop = opts.property.as_str();
     if prop != "C06" && prop != "C07" {
